@@ -169,6 +169,20 @@ func (c *Ctx) checkBCE(rule string, pkgs []string, scope map[*ssa.Function]bool,
 			}
 		}
 		if !just {
+			// the same expression moved, with its loop, into a private helper that only the
+			// justified function reaches: the recorded argument is about the caller's data
+			for i, j := range table {
+				if j.Expr != expr {
+					continue
+				}
+				if isHelper, _ := c.privateHelperOf(st.fn, func(caller string) bool { return caller == j.Func }); isHelper {
+					used[i] = true
+					just = true
+					L.Trivial(rule, fname, expr, pos, "justified residual (in a private helper of "+j.Func+"): "+j.Why)
+				}
+			}
+		}
+		if !just {
 			L.Bad(rule, fname, expr, pos, "index expression on file-controlled data that neither the compiler nor the linear-bounds engine can prove in range and that has no recorded justification: a malformed file can make the parser panic")
 		}
 	}
